@@ -228,6 +228,7 @@ class Run:
         self.inserted_max = None  # oracle C06: max objective inserted since last clear
         self.submitted = {}  # tok -> (obj, meas) as cast on entry
         self.twin = make_archive(case) if ("C01" in self.props and self.elitist) else None
+        self.after_bad = None
         self.resyncs = 0
         self.max_dev = F(0)
         self.max_abs = F(1)   # largest |objective| submitted so far (scale of float rounding in the sums)
@@ -247,7 +248,52 @@ class Run:
 
     def F_(self, prop, kind, what):
         """Failure attributed to `prop`; ignored (None) when this run does not serve it."""
+        if "C11" in self.props:
+            if prop == "C11":
+                return Failure(kind, f"[C11] {what}")
+            if self.after_bad:
+                return Failure(kind, f"[C11] after a rejected call ({self.after_bad}) the remaining valid history no "
+                               f"longer behaves as if that call had never happened: {what}")
+            return None
         return Failure(kind, f"[{prop}] {what}") if prop in self.props else None
+
+    def snapshot(self):
+        o = observe(self.archive, self.case)
+        o.pop("bad")
+        return o
+
+    def make_sched(self, entry, n):
+        from ribs.emitters import GaussianEmitter
+        from ribs.schedulers import BanditScheduler, Scheduler
+        sd = self.case.get("sol_dim", 2)
+        em = [GaussianEmitter(self.archive, sigma=0.5, x0=np.zeros(sd), batch_size=n, seed=1)]
+        if entry == "sched_tell":
+            return Scheduler(self.archive, em)
+        return BanditScheduler(self.archive, em, num_active=1)
+
+    def do_bad(self, op, where):
+        import faultlib
+        pre = self.snapshot()
+        res, exc = faultlib.inject(self.archive, op, self.dt, self.case.get("sol_dim", 2), len(self.case["lo"]),
+                                   self.case.get("layout", ""), sched=self.make_sched)
+        self.bump(f"bad:{op['entry']}:{op['arg']}:{op['kind']}:{res}")
+        if res == "skip":
+            return None
+        desc = f"{op['entry']}({op['arg']}: {op['kind']} at row {op['pos']} of {len(op['rows'])})"
+        post = self.snapshot()
+        if res == "accepted":
+            # a malformed call that is silently accepted must at least not touch the archive (this happens when
+            # no row would be inserted: the store returns before looking at the fields)
+            if post != pre:
+                return self.F_("C11", "oracle", f"{where}: malformed call {desc} was accepted without an error and "
+                               f"changed the archive: {[k for k in pre if pre[k] != post[k]]}")
+            return None
+        if post != pre:
+            diff = [k for k in pre if pre[k] != post[k]]
+            return self.F_("C11", "oracle", f"{where}: {desc} raised {exc} but changed the archive: {diff} "
+                           f"(len {pre['len']} -> {post['len']}, stats {pre['stats']} -> {post['stats']})")
+        self.after_bad = desc
+        return None
 
     def impl_add(self, archive, rows, single):
         layout, sd = self.case.get("layout", ""), self.case.get("sol_dim", 2)
@@ -682,6 +728,8 @@ class Run:
                     self.bump("add1")
                     if f is None and self.twin is not None:
                         self.impl_add(self.twin, [op["row"]], False)
+                elif kind == "bad":
+                    f = self.do_bad(op, where)
                 elif kind == "clear":
                     f = self.do_clear(where)
                     self.bump("clear")
